@@ -63,7 +63,7 @@ Record Inv (s : st) : Prop := {
   I_d1 : rp (R s) = RPop2 -> chans s = 0;
   I_d2 : (rp (R s) = RClear /\ rdata (R s) = RDisc) \/ (rp (R s) = RIdle /\ rres (R s) = RDisc) -> chans s = 0 /\ q s = [];
   I_r1 : rdead (R s) = true -> chans s = 0;
-  I_r2 : rdead (R s) = true -> match rp (R s) with RPark | RSusp | KStore | KEmpty | KChans | KTake | RStore => False | _ => True end;
+  I_r2 : rdead (R s) = true -> match rp (R s) with RPark | RSusp | KStore | KEmpty | KChans | KTake | KRun | RStore => False | _ => True end;
   I_r3 : rdead (R s) = true -> rp (R s) = RIdle -> match rres (R s) with REmpty => False | _ => True end
 }.
 
@@ -80,7 +80,7 @@ Ltac inv_some := match goal with H : Some _ = Some _ |- _ => inversion H; subst;
 Ltac step_cases H :=
   unfold step in H;
   repeat match type of H with
-  | context [match ?ac with TryRecv => _ | Recv _ => _ | DropPort => _ | RStep => _ | Worker => _ | Send => _ | DropChan => _ | SStep => _ | Free => _ end] => destruct ac
+  | context [match ?ac with TryRecv => _ | Recv _ => _ | DropPort => _ | RStep => _ | Worker => _ | Spur => _ | RCan => _ | Send => _ | DropChan => _ | SStep => _ | Free => _ end] => destruct ac
   | context [is_idle ?x] => let E := fresh "Eid" in destruct (is_idle x) eqn:E
   | context [s_ready ?y] => let E := fresh "Erd" in destruct (s_ready y) eqn:E
   | context [match rp ?x with _ => _ end] => let E := fresh "Erp" in destruct (rp x) eqn:E
